@@ -161,6 +161,16 @@ class Gen:
             params = [f"P{i}{j}" for j in range(r.choice([0, 0, 1, 1, 2]))]
             self._alias_pool = list(self.aliases)
             hashable = r.random() < 0.4
+            earlier = [a for a in self.aliases if a[1] and (a[3] or not hashable)]
+            if params and earlier and r.random() < 0.4:
+                # a parametrised alias that forwards its own parameters to an earlier parametrised alias
+                # (`type Twice[A] = Pair[A, A]`, `type Table[V] = Mapping[str, Row[V]]`)
+                e = r.choice(earlier)
+                body = ["alias", e[0], *[["tvar", r.choice(params)] for _ in e[1]]]
+                if not hashable and r.random() < 0.4:
+                    body = r.choice([["seq", body], ["map", cls(C_STR), body], ["opt", body]])
+                self.aliases.append([f"A{i}", params, body, hashable and e[3]])
+                continue
             body = self.ty(r.randint(1, 2), hashable=hashable, in_alias=True, params=params)
             self.aliases.append([f"A{i}", params, body, hashable])
 
